@@ -2277,6 +2277,8 @@ mod srvlevel {
         failed: std::sync::Mutex<Vec<usize>>,
         /// calls that reached an instance after it had reported a readiness error
         called_after_fail: std::sync::Mutex<Vec<usize>>,
+        /// `kind=driver`: the scenario's go for the readiness drivers
+        drive: tokio::sync::Notify,
     }
 
     impl GateShared {
@@ -2292,15 +2294,48 @@ mod srvlevel {
         id: usize,
         first: std::cell::Cell<bool>,
         shared: Arc<GateShared>,
+        /// `kind=driver`: ready only once the local task that the FACTORY spawned for this instance has run
+        driver: Option<(Rc<std::cell::Cell<bool>>, Rc<RefCell<Option<std::task::Waker>>>)>,
     }
 
-    impl actix_service::Service<actix_rt::net::TcpStream> for GatedService {
+    use std::{cell::RefCell, rc::Rc};
+
+    /// the factory of the gated service; `driver`: the new instance gets a readiness driver — a task spawned on the local set
+    /// the factory runs on; it waits for the scenario's go (`GateShared::drive`), then makes its instance ready and wakes it
+    async fn make_gated(sh: Arc<GateShared>, driver: bool) -> Result<GatedService, ()> {
+        let id = sh.created.fetch_add(1, Ordering::SeqCst) + 1;
+        let drv = if driver {
+            let ready = Rc::new(std::cell::Cell::new(false));
+            let wk: Rc<RefCell<Option<std::task::Waker>>> = Rc::new(RefCell::new(None));
+            let (r2, w2, sh2) = (ready.clone(), wk.clone(), sh.clone());
+            tokio::task::spawn_local(async move {
+                sh2.drive.notified().await;
+                sh2.drive.notify_one(); // (pass the go on to the driver of a later instance)
+                r2.set(true);
+                if let Some(w) = w2.borrow_mut().take() {
+                    w.wake();
+                }
+            });
+            Some((ready, wk))
+        } else {
+            None
+        };
+        Ok(GatedService { id, first: std::cell::Cell::new(true), shared: sh, driver: drv })
+    }
+
+    impl<S: tokio::io::AsyncWrite + Unpin + 'static> actix_service::Service<S> for GatedService {
         type Response = ();
         type Error = ();
         type Future = futures_core::future::LocalBoxFuture<'static, Result<(), ()>>;
 
         fn poll_ready(&self, cx: &mut std::task::Context<'_>) -> std::task::Poll<Result<(), ()>> {
             self.shared.polls.fetch_add(1, Ordering::SeqCst);
+            if let Some((ready, wk)) = &self.driver {
+                if !ready.get() {
+                    *wk.borrow_mut() = Some(cx.waker().clone());
+                    return std::task::Poll::Pending;
+                }
+            }
             if self.first.replace(false) && self.shared.fail_first.lock().unwrap().contains(&self.id) {
                 self.shared.failed.lock().unwrap().push(self.id);
                 return std::task::Poll::Ready(Err(()));
@@ -2323,7 +2358,7 @@ mod srvlevel {
             }
         }
 
-        fn call(&self, mut io: actix_rt::net::TcpStream) -> Self::Future {
+        fn call(&self, mut io: S) -> Self::Future {
             use tokio::io::AsyncWriteExt;
             let gate = self.shared.gate.load(Ordering::SeqCst);
             self.shared.calls.lock().unwrap().push((self.id, gate));
@@ -2351,11 +2386,36 @@ mod srvlevel {
         }
     }
 
+    async fn ask_t(t: &Target, wait: Duration) -> Option<u8> {
+        use tokio::io::AsyncReadExt;
+        let mut c = connect_to(t).await.ok()?;
+        let mut b = [0u8; 1];
+        match tokio::time::timeout(wait, c.read_exact(&mut b)).await {
+            Ok(Ok(_)) => Some(b[0]),
+            _ => None,
+        }
+    }
+
     fn run_gate(line: &str) -> (String, String, Vec<String>) {
         let ws: Vec<&str> = line.split_whitespace().collect();
         // `kind=fail2`: the re-created instance fails as well — at its very first readiness check; the third one is healthy
+        // `kind=driver`: the service is ready only once a local task that its factory spawned has run (after the scenario's go):
+        // the tasks a factory spawns live on with the worker, the connection that waits is served then
+        let driver = kv(&ws, "kind") == Some("driver");
+        // `lst=uds`: a unix listener (bind_uds): the connection reaches the service intact after it waited for readiness;
+        // `sys=1`: hosted under an actix System instead of a plain Tokio runtime
+        let uds = match kv(&ws, "lst") {
+            None | Some("tcp") => false,
+            Some("uds") => true,
+            _ => return (line.to_string(), "bad-op".into(), vec![]),
+        };
+        let under_system = match kv(&ws, "sys") {
+            None => false,
+            Some("1") => true,
+            _ => return (line.to_string(), "bad-op".into(), vec![]),
+        };
         let (fail, fail2) = match kv(&ws, "kind") {
-            Some("pending") => (false, false),
+            Some("pending") | Some("driver") => (false, false),
             Some("fail") => (true, false),
             Some("fail2") => (true, true),
             _ => return (line.to_string(), "bad-op".into(), vec![]),
@@ -2375,8 +2435,8 @@ mod srvlevel {
         };
         let stop_mode = match kv(&ws, "stop") {
             None => None,
-            Some("f") if !fail => Some(false),
-            Some("g") if !fail => Some(true),
+            Some("f") if !fail && !driver => Some(false),
+            Some("g") if !fail && !driver => Some(true),
             _ => return (line.to_string(), "bad-op".into(), vec![]),
         };
         let rt = tokio::runtime::Builder::new_current_thread().enable_all().build().unwrap();
@@ -2387,8 +2447,22 @@ mod srvlevel {
                 shared.fail_first.lock().unwrap().push(2);
             }
             let sh = shared.clone();
-            let (handle, addr, srv_done) = match host_server(move || {
+            if uds && listeners != 1 {
+                return "bad-op".to_string();
+            }
+            let hosted = host_server_droppable_sys(under_system, move || {
                 let mut b = actix_server::Server::build().workers(1).disable_signals();
+                if uds {
+                    static SEQ: AtomicUsize = AtomicUsize::new(0);
+                    let p = std::env::temp_dir().join(format!("vh-gate-{}-{}.sock", std::process::id(), SEQ.fetch_add(1, Ordering::SeqCst)));
+                    let _ = std::fs::remove_file(&p);
+                    let sh = sh.clone();
+                    b = b.bind_uds("gated-uds", &p, move || {
+                        let sh = sh.clone();
+                        actix_service::fn_factory(move || make_gated(sh.clone(), driver))
+                    })?;
+                    return Ok((b.run(), Target::Uds(p)));
+                }
                 let mut addr = None;
                 for i in 0..listeners {
                     let lst = std::net::TcpListener::bind("127.0.0.1:0")?;
@@ -2397,13 +2471,7 @@ mod srvlevel {
                         let sh = sh.clone();
                         b = b.listen(format!("gated-{i}"), lst, move || {
                             let sh = sh.clone();
-                            actix_service::fn_factory(move || {
-                                let sh = sh.clone();
-                                async move {
-                                    let id = sh.created.fetch_add(1, Ordering::SeqCst) + 1;
-                                    Ok::<_, ()>(GatedService { id, first: std::cell::Cell::new(true), shared: sh })
-                                }
-                            })
+                            actix_service::fn_factory(move || make_gated(sh.clone(), driver))
                         })?;
                     } else {
                         // a listener nobody connects to; its service says so if it is ever called
@@ -2416,13 +2484,30 @@ mod srvlevel {
                         })?;
                     }
                 }
-                Ok((b.run(), addr.unwrap()))
-            }) {
-                Ok(x) => x,
+                Ok((b.run(), Target::Tcp(addr.unwrap())))
+            });
+            let (handle, addr, srv_done) = match hosted {
+                Ok((h, a, d, k)) => {
+                    std::mem::forget(k);
+                    (h, a, d)
+                }
                 Err(e) => return if is_port_error(&e) { "skipped".to_string() } else { format!("setup-error {e}") },
             };
-            // first connection: served by instance 1
-            let a1 = ask(addr, Duration::from_secs(10)).await;
+            // first connection: served by instance 1 (`kind=driver`: once the readiness driver has been given its go, 300 ms
+            // after the connection was made)
+            let a1 = if driver {
+                let (t2, sh2) = (addr.clone(), shared.clone());
+                let first = tokio::spawn(async move {
+                    let r = ask_t(&t2, Duration::from_secs(10)).await;
+                    let _ = sh2;
+                    r
+                });
+                tokio::time::sleep(Duration::from_millis(300)).await;
+                shared.drive.notify_one();
+                first.await.ok().flatten()
+            } else {
+                ask_t(&addr, Duration::from_secs(10)).await
+            };
             // wait until the worker has swept again after that call and gone idle: two further readiness polls
             // with nothing happening in between (bounded; if the machine is too slow the scenario shows nothing)
             let p0 = shared.polls.load(Ordering::SeqCst);
@@ -2442,8 +2527,9 @@ mod srvlevel {
             tokio::time::sleep(Duration::from_millis(50)).await;
             // second connection
             let sh2 = shared.clone();
+            let addr2 = addr.clone();
             let second = tokio::spawn(async move {
-                let r = ask(addr, Duration::from_secs(15)).await;
+                let r = ask_t(&addr2, Duration::from_secs(15)).await;
                 let _ = sh2;
                 r
             });
@@ -4119,6 +4205,14 @@ mod gen {
             writeln!(w, "gate g2 kind=fail2").unwrap();
             // more than 256 listeners on the worker: the failing service is no. 256 / no. 300 — re-created from its own factory
             writeln!(w, "gate g3 kind=fail listeners=257 at=256").unwrap();
+            // a service made ready by a local task that its factory spawned (plain Tokio runtime, and under an actix System)
+            writeln!(w, "gate g5 kind=driver").unwrap();
+            writeln!(w, "gate g6 kind=driver sys=1").unwrap();
+            // a unix listener: the connection reaches the service intact (it is answered) after it waited for readiness
+            writeln!(w, "gate g7 kind=pending lst=uds").unwrap();
+            writeln!(w, "gate g8 kind=fail lst=uds sys=1").unwrap();
+            writeln!(w, "srv u0 workers=1 timeout=1 mode=g holds=300 lst=uds").unwrap();
+            writeln!(w, "srv u1 workers=2 timeout=1 mode=g holds=300,n lst=udsl").unwrap();
             writeln!(w, "gate g4 kind=fail2 listeners=301 at=300").unwrap();
             writeln!(w, "gate gs kind=pending stop=f").unwrap();
             writeln!(w, "fault f0").unwrap();
